@@ -10,6 +10,18 @@ Generator : a Hypothesis RuleBasedStateMachine over a scratch tree (2-5 command 
             insert, prepend, remove, add, del, item assignment, +=) with absolute, relative, empty,
             `.`, trailing-slash, dotted, symlinked and non-existent entries and duplicates, chdir, and
             run a command for real.  No rule sleeps.
+            Symlinked directories: every command directory has a nested directory `in` and a link `lk` to the `in` of
+            the next one (relative / absolute link text), the root has `lt`, `la`; explicit spellings with `link/..`,
+            `link/../dir/..`, `./link/../x`, absolute, doubled and trailing separators are looked up and run, $PATH
+            entries `link/..`, and the cwd is reached through such links with the logical spelling in $PWD (as `cd`
+            does).  The reference for a path is what the kernel resolves.
+            Concurrent modification (rule `concurrent`, vlib/c08_intrude.py): during ONE lookup (`in`, locate_binary,
+            all_commands, locate_executable, SubprocSpec.build) an entry of a $PATH directory is created / installed by
+            rename / deleted / chmod-ed / renamed / moved out at a generated point of xonsh's own reading of that
+            directory: before the directory is opened, after the listing was read, after the k-th entry was handed out,
+            after the last one, when the iterator is closed, before / after the j-th stat of the directory (the
+            mtime read is one of them) or of one of its entries.  Deterministic, no threads.  An earlier ordinary
+            change of the same directory (file `vqt`) makes the lookup re-list it.
 Oracle    : after *every* step every bare name of the pool (plus names with a separator) is looked up
             through locate_executable, SubprocSpec.build (binary_loc, or the script path when xonsh
             rewrote the command line to `<interpreter> <script>`), CommandsCache.locate_binary,
@@ -20,6 +32,8 @@ Oracle    : after *every* step every bare name of the pool (plus names with a se
             `/bin/sh -c 'command -v name'` (dash) under the same PATH and cwd; a disagreement between the
             two references is a HarnessError.  Results are compared by realpath.  A name with a separator
             must resolve to exactly that path or to nothing.
+            Concurrent step: the overlapping lookup may answer from the state before or after the change; then the
+            ordinary observation phase follows with no further change - staleness that persists is the violation.
 Config    : per history $ENABLE_COMMANDS_CACHE on/off and $COMMANDS_CACHE_SAVE_INTERMEDIATE (cache file) on/off are
             drawn; `restart` steps start a new session in the same place (the cache file, if any, survives).
             Which cache view is asked first after a step rotates, so each must refresh by itself.
@@ -28,7 +42,9 @@ Findings  : the CommandsCache views are additionally compared with a replica of 
             shadow predicts is attributed to C08-F1 (stale directory listing) / C08-F2 (merged map not
             rebuilt).  C08-F3 (`'./x' in commands_cache` answers for the basename), C08-F4 ($PATH = [] runs a
             file of the cwd) and C08-F5 ($PATH entry 'missing/../d0' is searched) have equally narrow
-            predicates.  A finding is tolerated (and counted in excluded_known) only while it is listed as
+            predicates; so have C08-F6 (`./x/` with a trailing separator is answered for ./x) and C08-F7 (explicit
+            path to a non-executable file: SubprocSpec runs os.path.abspath(word), another file after `link/..`).
+            A finding is tolerated (and counted in excluded_known) only while it is listed as
             open in known_findings.json; otherwise it is reported.  Anything else is a violation.
 """
 
@@ -46,8 +62,10 @@ from vlib.common import Failure, HarnessError, Mismatch, Stats
 PROP = "C08"
 LEVEL = "exploration"
 RULE = ("state-machine histories (create/delete/chmod/replace-by-dir/symlink/dir removal+swap/mtime restore, "
-        "$PATH edits through all EnvPath entry points, chdir, real runs) over 2-5 PATH directories and a 3-name "
-        "pool, every name looked up through every view after every step; non-trivial = lookup of a name "
+        "$PATH edits through all EnvPath entry points, chdir incl. through symlinks, real runs, entry changes made "
+        "DURING a lookup at a generated point of xonsh's reading of the directory) over 2-5 PATH directories with "
+        "nested and symlinked directories and a 3-name pool, every name (plus explicit paths incl. `link/..` "
+        "spellings) looked up through every view after every step; non-trivial = lookup of a name "
         "directly after a mutating step (file system, $PATH or cwd changed since the previous lookup of that "
         "name); distinct = hash of (tree layout, $PATH list, cwd, cache setting, name); samples are whole histories")
 HOOKS = False
@@ -62,19 +80,42 @@ KINDS = ["script", "script", "script", "elf", "elf", "plain"]
 PATH_ENTRIES = (["{R}/d%d" % i for i in range(NCMD)] * 3 +
                 ["{R}/d0/", "{R}/d1/", "d0", "d1", "./d2", "../d0", "../d1", "", "", ".", "{R}/ld0", "{R}/ld0/",
                  "{R}/nope", "nope", "{R}/d1/../d0", "{R}/d0/../d1/.", "{R}/pool", "{R}/d0/vqa", "{R}", "..",
-                 "{R}//d1", "{R}/d2/./", "{R}/nope/../d0", "{R}/d0/vqa/../../d1"])
-CWDS = ["{R}", "{R}/d0", "{R}/d1", "{R}/pool", "{R}/ld0", "{R}/d2"]
+                 "{R}//d1", "{R}/d2/./", "{R}/nope/../d0", "{R}/d0/vqa/../../d1",
+                 # `..` after a symlinked directory: the kernel goes to the parent of the link's target
+                 "{R}/lt/..", "{R}/d0/lk/..", "lt/..", "{R}/la/../"])
+CWDS = ["{R}", "{R}/d0", "{R}/d1", "{R}/pool", "{R}/ld0", "{R}/d2",
+        "{R}/lt", "{R}/d0/lk", "{R}/d1/in", "{R}/la"]       # the last four: a cwd reached through a symlink / nested
 LINK_TARGETS = ["../d0/{N}", "../d1/{N}", "../d2/{N}", "{R}/d0/{N}", "{R}/d1/{N}", "../pool/{N}", "{R}/pool/{N}",
                 "../pool/vqa", "nope", "../nope/{N}", "{N}", "vqa", "vqb", "vqc", ".", "../pool", "{R}/d1",
-                "../ld0/{N}"]
-EXPLICIT = ["./{N}", "d0/{N}", "d1/{N}", "{R}/d0/{N}", "{R}/d1/{N}", "../d0/{N}", "pool/{N}", "./d1/../d0/{N}",
-            "d0//{N}", "{R}/ld0/{N}", "../{N}", "nope/{N}", "{R}/pool/{N}"]
+                "../ld0/{N}", "lk/../{N}", "{R}/lt/../{N}"]
+# Symlinked directories of the tree (made by init): every command directory d<i> holds a directory `in` and a link
+# `lk` -> in-directory of the next command directory (relative link text for even i, absolute for odd i); the root
+# has lt -> d1/in (relative) and la -> {R}/d0/in (absolute).  So `d0/lk/..` IS d1 for the kernel and d0 for code that
+# normalises the text; both hold files of the name pool.
+EXPLICIT_PLAIN = ["./{N}", "d0/{N}", "d1/{N}", "{R}/d0/{N}", "{R}/d1/{N}", "../d0/{N}", "pool/{N}", "./d1/../d0/{N}",
+                  "d0//{N}", "{R}/ld0/{N}", "../{N}", "nope/{N}", "{R}/pool/{N}", "d0/in/../{N}", "./../{N}"]
+EXPLICIT_DOTS = ["lk/../{N}", "./lk/../{N}", "d0/lk/../{N}", "d1/lk/../{N}", "{R}/d0/lk/../{N}", "{R}/d1/lk/../{N}",
+                 "{R}/d2/lk/../{N}", "lt/../{N}", "./lt/../{N}", "{R}/lt/../{N}", "la/../{N}", "{R}/la/../{N}",
+                 "../lt/../{N}", "../d0/lk/../{N}",
+                 # link/../dir/.. , two links, link/../.. back into the tree
+                 "d0/lk/../in/../{N}", "{R}/lt/../../d0/lk/../{N}", "ld0/lk/../{N}", "{R}/la/../lk/../{N}",
+                 "lk/../lk/../{N}", "{R}/lt/../../d0/{N}",
+                 # spelling variants of the same
+                 "lk/..//{N}", "d0/lk/.././{N}", "{R}/d0/lk/../{N}/", "./{N}/", "lk/../{N}/"]
+EXPLICIT = EXPLICIT_PLAIN + EXPLICIT_DOTS
+RUN_FORMS = (["{N}"] * 6 + ["./{N}", "d0/{N}", "lk/../{N}", "./lk/../{N}", "d0/lk/../{N}", "{R}/d1/lk/../{N}", "lt/../{N}",
+                            "{R}/la/../{N}", "../{N}", "d0/lk/../in/../{N}"])
+TRIG = "vqt"             # a fourth command name, only used to make a directory "changed since it was listed"
 
 F_MTIME = "C08-F1"       # listing of a directory cached under its mtime: chmod / change behind a symlink / restored mtime
 F_MERGE = "C08-F2"       # merged name->path map not rebuilt after a $PATH edit (or chdir) that adds no new/modified dir
 F_INSEP = "C08-F3"       # `"./x" in commands_cache` answers for the basename on $PATH
 F_DOTS = "C08-F5"        # $PATH entry "missing/../d0": unusable for the OS, searched by xonsh (realpath normalises it lexically)
 F_EMPTY = "C08-F4"       # $PATH = [] : execution searches the current directory although every lookup says "not found"
+F_SLASH = "C08-F6"       # "./x/" (trailing separator, x a regular file): ENOTDIR for the kernel, xonsh finds and runs ./x
+F_GONE = "C08-F8"        # a $PATH directory disappears between the cache's existence test and its listing: the lookup raises
+F_ABSP = "C08-F7"        # explicit path to a NON-executable file: SubprocSpec inspects / runs os.path.abspath(word), which
+#                          is another file when the word has `..` after a symlinked directory
 
 # set to False to stop demanding that `<name with separator> in commands_cache` refers to that path only
 CHECK_IN_WITH_SEPARATOR = True
@@ -167,6 +208,14 @@ def sh_lookup(names, entries):
     if len(lines) != len(names):
         raise HarnessError("sh reference printed %r for %r" % (r.stdout, names))
     return [None if ln == "-" else ln for ln in lines]
+
+
+def sh_run(word):
+    """What running the word `word` (a path with a separator) prints when /bin/sh hands it to the kernel."""
+    r = subprocess.run(["/bin/sh", "-c", '"$1"', "sh", word], capture_output=True, text=True, timeout=30,
+                       stdin=subprocess.DEVNULL)
+    out = r.stdout.strip()
+    return out if (out.startswith("vid:") or out.startswith("exe:")) else None
 
 
 def rp(p):
@@ -266,6 +315,7 @@ class World:
         self.save = False
         self.last = None
         self._rpc = {}
+        self.ndirs = NCMD
 
     # -- helpers -----------------------------------------------------------------------
     def sub(self, s, name=None):
@@ -313,12 +363,20 @@ class World:
         else:
             shutil.rmtree(path)
 
-    def _mkdir(self, path):
+    def _mkdir(self, path, cmd_index=None):
         """mkdir + a distinct old mtime: fresh directories made in the same kernel tick would otherwise share
-        one coarse timestamp by accident (equal mtimes are produced on purpose by mt=keep instead)"""
+        one coarse timestamp by accident (equal mtimes are produced on purpose by mt=keep instead).
+        A command directory d<i> also gets its nested directory `in` and its link `lk` (see EXPLICIT_DOTS)."""
         os.mkdir(path)
+        if cmd_index is not None:
+            os.mkdir(os.path.join(path, "in"))
+            nxt = DIRS[(cmd_index + 1) % max(2, self.ndirs)]
+            os.symlink("../%s/in" % nxt if cmd_index % 2 == 0 else "%s/%s/in" % (self.R, nxt),
+                       os.path.join(path, "lk"))
         self.serial += 1
         t = 1_500_000_000 + self.serial
+        if cmd_index is not None:
+            os.utime(os.path.join(path, "in"), (t, t))
         os.utime(path, (t, t))
 
     def _write(self, path, kind, mode):
@@ -355,7 +413,7 @@ class World:
             p = self.dpath(op["d"])
             if os.path.lexists(p):
                 return "noop"
-            self._mkdir(p)
+            self._mkdir(p, cmd_index=op["d"] if op["d"] < NCMD else None)
             return "mkdir"
         if k == "linkdir":
             p = self.dpath(op["d"])
@@ -379,8 +437,9 @@ class World:
             if not os.path.isdir(p):
                 return "noop"
             os.chdir(p)
-            self.XSH.env["PWD"] = os.getcwd()
-            return "chdir"
+            # `cd` of xonsh stores the path as typed (logical, symlinks kept) in $PWD; the process cwd is physical
+            self.XSH.env["PWD"] = os.path.abspath(p) if op.get("logical") else os.getcwd()
+            return "chdir-logical-pwd" if op.get("logical") and os.path.realpath(p) != os.path.abspath(p) else "chdir"
         if k in ("lookup", "run"):
             return k
         if k == "restart":
@@ -398,11 +457,14 @@ class World:
         from vlib import helpers, session
 
         helpers.ensure()
+        self.ndirs = op["ndirs"]
         for i in range(op["ndirs"]):
-            self._mkdir(self.dpath(i))
+            self._mkdir(self.dpath(i), cmd_index=i)
         self._mkdir(self.dpath(NCMD))
         self._mkdir(os.path.join(self.R, "stage"))
         os.symlink("d0", os.path.join(self.R, "ld0"))
+        os.symlink("d1/in", os.path.join(self.R, "lt"))                 # relative link text
+        os.symlink(self.R + "/d0/in", os.path.join(self.R, "la"))       # absolute link text
         os.chdir(self.R)
         entries = [self.sub(e) for e in op["path"]]
         self.cache_on = bool(op.get("cache", True))
@@ -434,7 +496,7 @@ class World:
                 continue
             for n in sorted(os.listdir(d)):
                 q = os.path.join(d, n)
-                if regular_only and not os.path.isfile(q):
+                if n not in NAMES or (regular_only and not os.path.isfile(q)):
                     continue
                 out.append((i, n))
         return out
@@ -552,7 +614,7 @@ class World:
     def step(self, op):
         self.ops.append(op)
         try:
-            what = self.apply(op)
+            what = self._conc(op) if op["op"] == "conc" else self.apply(op)
         except (HarnessError, Mismatch):
             raise
         except Exception as e:  # noqa: BLE001
@@ -562,6 +624,244 @@ class World:
                 return
             raise HarnessError("operation %r failed in the harness: %s: %s" % (op, type(e).__name__, e))
         self.observe(op, what)
+
+    # -- a change made by "another process" WHILE one xonsh call is reading the directory ----
+    def _cop(self, op, d):
+        """the concurrent operation on an entry of directory d; returns its label"""
+        k = op["cop"]
+        if k == "dirgone":
+            # the whole directory is moved away (what `rm -rf venv`, a package upgrade or an unmount do)
+            if os.path.dirname(d) == self.R and os.path.basename(d) in DIRS[:NCMD] and not self._cwd_inside(d):
+                self.serial += 1
+                os.rename(d, os.path.join(self.R, "stage", "gone%d" % self.serial))
+                return k
+            k = "delete"
+        have = [x for x in NAMES if os.path.lexists(os.path.join(d, x))]
+        if k in ("delete", "chmod", "rename", "moveout"):
+            reg = [x for x in have if os.path.isfile(os.path.join(d, x))] if k == "chmod" else have
+            if not reg:
+                k = "create"
+            else:
+                n = reg[op["pick"] % len(reg)]
+        if k in ("create", "install"):
+            n = op["n"]
+        path = os.path.join(d, n)
+        if k == "create":
+            if os.path.lexists(path):
+                self._remove(path)
+            self._write(path, op["kind"], op["mode"])
+        elif k == "install":                      # written elsewhere, renamed into place (what package managers do)
+            tmp = os.path.join(self.R, "stage", "new")
+            self._write(tmp, op["kind"], op["mode"])
+            if os.path.isdir(path) and not os.path.islink(path):
+                self._remove(path)
+            os.rename(tmp, path)
+        elif k == "delete":
+            self._remove(path)
+        elif k == "chmod":
+            m = stat.S_IMODE(os.stat(path).st_mode)
+            os.chmod(path, 0o644 if m & 0o111 else 0o755)
+        elif k == "rename":
+            others = [x for x in NAMES if x != n]
+            to = os.path.join(d, others[op["pick"] // 3 % len(others)])
+            if os.path.lexists(to) and any(os.path.isdir(q) and not os.path.islink(q) for q in (path, to)):
+                self._remove(to)        # rename(2) replaces file by file only
+            os.rename(path, to)
+        elif k == "moveout":
+            tmp = os.path.join(self.R, "stage", "out")
+            if os.path.lexists(tmp):
+                self._remove(tmp)
+            os.rename(path, tmp)
+        else:
+            raise HarnessError("unknown concurrent operation %r" % (op,))
+        return k
+
+    def _conc(self, op):
+        """One lookup during which an entry of a $PATH directory is changed at a generated point of xonsh's own
+        reading of that directory (vlib/c08_intrude.py).  The answer of that lookup may come from the state before
+        or after the change; the lookups that follow (observe) must agree with the file system."""
+        from vlib.c08_intrude import Intruder
+        from xonsh.procs.executables import locate_executable
+        from xonsh.procs.specs import SubprocSpec
+        from xonsh.tools import XonshError
+
+        if self.XSH is None:
+            raise HarnessError("first operation must be init")
+        XSH = self.XSH
+        cc = XSH.commands_cache
+        st = self.stats
+        R = self.R
+        entries = [str(x) for x in XSH.env["PATH"]]
+        eff = effective_dirs(entries)
+        cands = [d for d in eff if d == R or d.startswith(R + "/")]
+        if not cands:
+            return "noop"
+        d = cands[op["dsel"] % len(cands)]
+        if op.get("pre"):
+            # an ordinary earlier change of the same directory: the lookup below has to list it again
+            t = os.path.join(d, TRIG)
+            if os.path.lexists(t):
+                self._remove(t)
+            else:
+                self._write(t, "script", 0o755)
+        lenient = lenient_entries(entries)
+        eff_x = effective_dirs(lenient) if lenient != entries else eff
+        names = NAMES + [TRIG]
+        view = op["view"]
+        cache_view = view in ("in", "lb", "all")
+        ask = op["ask"]
+
+        def truths():
+            return ({n: ref_lookup(n, entries) for n in names}, {n: ref_lookup(n, lenient) for n in names})
+
+        before = truths()
+        old_merged = dict(self.shadow.merged or {})
+        if cache_view:
+            self.shadow.update(eff_x)       # the replica validates its listings where xonsh is about to
+        box = {}
+
+        def action():
+            b = os.stat(d)
+            lab = self._cop(op, d)
+            if lab == "dirgone":
+                return lab
+            a = os.stat(d)
+            if a.st_mtime_ns == b.st_mtime_ns:
+                # chmod never moves the directory timestamp, and an entry change in the kernel tick of the previous
+                # one need not either.  Staleness behind an unchanged timestamp is C08-F1 and is measured by the
+                # sequential steps; here the directory is touched as well, so that "stale afterwards" can only mean
+                # that the change was covered by a timestamp read too late.
+                os.utime(d, ns=(a.st_atime_ns, a.st_mtime_ns + 1_000_000))
+                box["bumped"] = True
+            return lab
+
+        ans = err = None
+        intr = Intruder(d, op["point"], action)
+        try:
+            with intr:
+                if view == "in":
+                    ans = ask in cc
+                elif view == "lb":
+                    ans = cc.locate_binary(ask)
+                elif view == "all":
+                    ans = {k: v[0] for k, v in cc.all_commands.items() if not v[1]}
+                elif view == "le":
+                    ans = locate_executable(ask)
+                elif view == "spec":
+                    try:
+                        sp = test_build_frame(SubprocSpec, [ask])
+                        ans = sp.binary_loc if list(sp.cmd) == [ask] else (sp.cmd[-1] if sp.cmd else None)
+                    except XonshError as e:
+                        ans = None
+                        box["refused"] = str(e)
+                else:
+                    raise HarnessError("unknown view %r" % (view,))
+        except HarnessError:
+            raise
+        except Exception as e:  # noqa: BLE001
+            err = e
+        if intr.error is not None:
+            raise HarnessError("the concurrent operation %r failed in the harness: %r" % (op, intr.error))
+        fired = intr.fired
+        if not intr.done:
+            intr.fire("late")               # the point did not occur in this call: an ordinary sequential change
+            fired = "late"
+            if intr.error is not None:
+                raise HarnessError("the operation %r failed in the harness: %r" % (op, intr.error))
+        lab = intr.result
+        after = truths()
+        # the change can alter what a $PATH entry denotes (the directory itself is gone, or the entry is a link named
+        # like a command inside the directory)
+        path_changed = lab == "dirgone" or effective_dirs(entries) != eff
+        self._rpc = {}
+        rp = self._rp
+        where = "PATH %r, cwd %r" % (_shortl(entries, R), _shortp(os.getcwd(), R))
+        how = "while %s was changed (%s) at %s of xonsh's reading of it" % (_shortp(d, R), lab, fired)
+        if view == "spec" and fired != "late" and (
+                (err is None and "refused" in box) or
+                (isinstance(err, OSError) and isinstance(getattr(err, "filename", None), str) and
+                 os.path.dirname(err.filename) == d)):
+            # building the command found the file and lost it (or its x bit) before it could inspect it: the error
+            # ("permission denied" / ENOENT naming that file) is what execve() tells any shell that loses this race -
+            # neither state is misreported
+            if st is not None:
+                st.hist["conc:spec-lost-the-file-after-locating-it:" + (type(err).__name__ if err else "XonshError")] += 1
+            if path_changed:
+                self._fresh_session(entries)
+            return "conc:" + lab
+        if err is not None:
+            if lab == "dirgone" and cache_view and isinstance(err, (FileNotFoundError, NotADirectoryError)) and \
+                    getattr(err, "filename", None) == d and fired in ("scan:before-open", "stat:after", "stat:before"):
+                self.mismatch("exception-directory-vanished", "concurrent:" + view,
+                              "%s: %s - the $PATH directory %s was moved away between the existence test and the "
+                              "os.scandir() of CommandsCache (executables_in only expects PermissionError); %s" % (
+                                  type(err).__name__, err, _shortp(d, R), where), finding=F_GONE)
+                # the interrupted refresh left the cache half updated (alias checksum stored, merged map not rebuilt):
+                # what it answers next is a consequence of the same defect
+                self._fresh_session(entries)
+                return "conc:" + lab
+            self.mismatch("exception", "concurrent:" + view, "%s: %s %s (%s)" % (type(err).__name__, err, how, where),
+                          bucket="exception:concurrent:%s:%s" % (view, type(err).__name__))
+            return "conc:" + lab
+
+        # the answer given during the change: from the state before or from the state after (or what the recorded
+        # cache findings make of one of them)
+        maps = []
+        if cache_view:
+            sh = self.shadow
+            maps = [sh.merged or {}, sh.merge(eff_x), old_merged]
+            if d in sh.per_dir:
+                keep = sh.per_dir[d]
+                sh.per_dir[d] = (keep[0], list_exec(d), keep[2])
+                maps.append(sh.merge(eff_x))
+                sh.per_dir[d] = keep
+
+        def acceptable(n):
+            acc = {rp(t[n]) for t in before + after}
+            for m in maps:
+                acc.add(rp(m.get(n)))
+            return acc
+
+        def bad(text):
+            self.mismatch("view-differs", "concurrent:" + view, "%s %s - neither the answer before nor the one after "
+                          "the change (%s)" % (text, how, where))
+
+        if view == "in":
+            if ans not in {x is not None for x in acceptable(ask)}:
+                bad("`%r in commands_cache` was %r" % (ask, ans))
+        elif view == "all":
+            for n in names:
+                if rp(ans.get(n)) not in acceptable(n):
+                    bad("all_commands had %r -> %s" % (n, _shortp(ans.get(n), R)))
+        elif rp(ans) not in acceptable(ask):
+            bad("%s(%r) gave %s" % (view, ask, _shortp(ans, R)))
+        if st is not None:
+            st.hist["conc:at:" + fired] += 1
+            st.hist["conc:op:" + lab] += 1
+            st.hist["conc:view:" + view] += 1
+            if intr.counts["scan"]:
+                st.hist["conc:directory-was-relisted-by-this-call"] += 1
+            if box.get("bumped"):
+                st.hist["conc:directory-touched-because-its-mtime-did-not-move"] += 1
+            if fired != "late" and (before[0][ask] is None) != (after[0][ask] is None):
+                known = (ask in ans) if view == "all" else ans not in (None, False)
+                st.hist["conc:answer-of-that-call:from-the-%s-state" % (
+                    "new" if known == (after[0][ask] is not None) else "old")] += 1
+        if path_changed:
+            # what the cache says after a $PATH directory vanished is C08-F2 (sequential rmdir steps measure it); the
+            # point of this operation is the lookup that overlapped it, so the history goes on in a new session
+            if st is not None:
+                st.hist["conc:new-session-because-the-change-removed-a-path-directory"] += 1
+            self._fresh_session(entries)
+        return "conc:" + lab
+
+    def _fresh_session(self, entries):
+        try:
+            os.unlink(os.path.join(self.R, "xc", "path-commands-cache.json"))
+        except OSError:
+            pass
+        self._session(entries)
+        self.shadow = Shadow(self.cache_on)
 
     def mismatch(self, kind, view, detail, finding=None, bucket=None, count=True):
         bucket = bucket or (finding or "%s:%s" % (kind, view))
@@ -704,6 +1004,15 @@ class World:
         probes = list(NAMES)
         if op.get("probe"):
             probes.append(self.sub(op["probe"][0], op["probe"][1]))
+            if st is not None and op["probe"][0] in EXPLICIT_DOTS:
+                pr = probes[-1]
+                hit = ref_lookup(pr, entries)
+                textual = os.path.normpath(os.path.join(cwd, pr))
+                st.hist["explicit-dotdot-after-symlink:" + (
+                    "not-a-command" if hit is None else
+                    "command,other-file-at-textual-path" if (os.path.lexists(textual) and rp(textual) != rp(hit)) else
+                    "command,nothing-at-textual-path" if not os.path.lexists(textual) else
+                    "command,same-file-textually")] += 1
         for name in probes:
             explicit = "/" in name
             exp = truth[name] if not explicit else ref_lookup(name, entries)
@@ -716,6 +1025,8 @@ class World:
                     return
                 if f5 and rp(obs) == rp(exp_x):
                     unresolvable(view, "%s %s; %s" % (text, _shortp(obs, R), ctx))
+                elif explicit and self._explicit_finding(name, exp, view, obs=obs):
+                    pass
                 else:
                     self.mismatch("view-differs", view + tag, "%s %s; %s" % (text, _shortp(obs, R), ctx))
 
@@ -740,8 +1051,9 @@ class World:
             except (Mismatch, HarnessError):
                 raise
             except Exception as e:  # noqa: BLE001
-                self.mismatch("exception", "spec" + tag, "%s: %s; %s" % (type(e).__name__, e, ctx),
-                              bucket="exception:spec:" + type(e).__name__)
+                if not (explicit and self._explicit_finding(name, exp, "spec", exc=e)):
+                    self.mismatch("exception", "spec" + tag, "%s: %s; %s" % (type(e).__name__, e, ctx),
+                                  bucket="exception:spec:" + type(e).__name__)
             # V3 locate_binary, V4 `in`
             try:
                 lb = first["lb", name] if ("lb", name) in first else cc.locate_binary(name)
@@ -776,7 +1088,9 @@ class World:
                     self.mismatch("view-differs", "locate_binary:explicit", "locate_binary gave None; %s" % ctx)
                 if CHECK_IN_WITH_SEPARATOR and inn != (exp is not None):
                     base = os.path.basename(name)
-                    if inn == (base in sh_m):
+                    if inn and self._explicit_finding(name, exp, "in", obs=name.rstrip("/")):
+                        pass
+                    elif inn == (base in sh_m):
                         if st is not None:
                             st.hist["in-with-separator-wrong"] += 1
                         self.mismatch("in-explicit", "in:explicit",
@@ -801,6 +1115,13 @@ class World:
             exp_x = lenient_exp(name)
             got, err = self._run(name)
             want = None if exp is None else self._ident(exp)
+            if "/" in name:
+                ref = sh_run(name)
+                if ref != want:
+                    raise HarnessError("references disagree for the explicit path %r: python model runs %r, "
+                                       "/bin/sh runs %r (%s, ops %r)" % (name, want, ref, where, self.ops))
+                if st is not None and any(x in name for x in ("lk/..", "lt/..", "la/..")):
+                    st.hist["run:explicit-dotdot-after-symlink:" + ("found" if want else "notfound")] += 1
             if got != want:
                 text = "running `%s` was answered by %r, the $PATH search selects %s = %r (%s; %s)" % (
                     _shortp(name, R), got, _shortp(exp, R), want, where, err)
@@ -812,6 +1133,8 @@ class World:
                                   "'search the current directory')" % (name, name), finding=F_EMPTY)
                 elif f5 and rp(exp) != rp(exp_x) and got in (None, self._ident(exp_x) if exp_x else None):
                     unresolvable("run", text)
+                elif "/" in name and self._explicit_finding(name, exp, "run", ran=got):
+                    pass
                 else:
                     self.mismatch("run-differs", "run", text)
             if st is not None:
@@ -834,6 +1157,40 @@ class World:
                 st.hist["step-with-cache-disabled"] += 1
             if self.save:
                 st.hist["step-with-cache-file"] += 1
+
+    def _explicit_finding(self, name, exp, view, obs=None, ran=None, exc=None):
+        """Narrow predicates of the recorded defects of the explicit-path branch, evaluated on the failing lookup.
+        Reports (or tolerates and counts, while the finding is open) and returns True when one of them applies."""
+        R = self.R
+        if exp is not None:
+            return False
+        # C08-F6: the word ends in a separator and, without it, is an executable regular file; xonsh answered for that
+        stripped = name.rstrip("/")
+        if name.endswith("/") and "/" in stripped and _is_exec_file(stripped) and view != "locate_binary" and (
+                (obs is not None and self._rp(obs) == self._rp(stripped)) or
+                (ran is not None and ran == self._ident(stripped))):
+            self.mismatch("trailing-separator-ignored", view,
+                          "the word %r ends in a path separator and %r is a regular file: the kernel (execve, stat) "
+                          "and /bin/sh answer ENOTDIR / 'not found', xonsh's %s answered for %s (pathlib drops the "
+                          "trailing separator in locate_relative_path)" % (
+                              _shortp(name, R), _shortp(stripped, R), view, _shortp(stripped, R)), finding=F_SLASH)
+            return True
+        # C08-F7: the word denotes a regular file without execute permission and its textual normal form is another path
+        textual = os.path.abspath(name)
+        if view in ("spec", "run") and os.path.isfile(name) and self._rp(textual) != self._rp(name) and (
+                (obs is not None and self._rp(obs) == self._rp(textual)) or
+                (ran is not None and _is_exec_file(textual) and ran == self._ident(textual)) or
+                (isinstance(exc, IsADirectoryError) and os.path.isdir(textual))):
+            self.mismatch("nonexecutable-explicit-path-normalised-textually", view,
+                          "the word %r is %s for the kernel - a regular file without execute permission (sh: permission "
+                          "denied) - but SubprocSpec.resolve_executable_commands falls back to os.path.abspath(word) = %s, "
+                          "a different path because `..` follows a symlinked directory, and %s" % (
+                              _shortp(name, R), _shortp(os.path.realpath(name), R), _shortp(textual, R),
+                              "crashed with IsADirectoryError" if exc is not None else
+                              "ran that file (%r)" % ran if ran is not None else "resolved the command to that file"),
+                          finding=F_ABSP)
+            return True
+        return False
 
     def _run(self, name):
         from vlib import session
@@ -862,6 +1219,9 @@ class World:
                 continue
             if os.path.islink(p):
                 out.append((dn, "->" + os.readlink(p)))
+                continue
+            if not os.path.isdir(p):
+                out.append((dn, stat.S_IMODE(os.lstat(p).st_mode)))
                 continue
             for n in sorted(os.listdir(p)):
                 q = os.path.join(p, n)
@@ -1060,11 +1420,40 @@ def make_machine(stats, base, tolerate, ignore, seen=None):
                 op["i"] = i
             self._go(op, probe)
 
-        @rule(to=st.sampled_from(CWDS), probe=probe)
-        def chdir(self, to, probe):
-            self._go({"op": "chdir", "to": to}, probe)
+        @rule(to=st.sampled_from(CWDS), logical=st.booleans(), probe=probe)
+        def chdir(self, to, logical, probe):
+            op = {"op": "chdir", "to": to}
+            if logical:
+                op["logical"] = True
+            self._go(op, probe)
 
-        @rule(ns=st.permutations(NAMES), form=st.sampled_from(["{N}", "{N}", "{N}", "{N}", "./{N}", "d0/{N}"]),
+        @rule(dsel=st.integers(0, 5), pre=st.sampled_from([True, True, True, False]),
+              cop=st.sampled_from(["create", "create", "create", "install", "install", "install", "delete", "delete",
+                                   "delete", "chmod", "chmod", "rename", "rename", "moveout", "dirgone"]),
+              n=names, pick=st.integers(0, 8), kind=st.sampled_from(KINDS),
+              mode=st.sampled_from([0o755] * 5 + [0o700, 0o644]),
+              vp=st.sampled_from(["in", "in", "lb", "lb", "all", "all", "le", "spec"]).flatmap(
+                  lambda v: st.tuples(st.just(v), st.integers(0, 13).flatmap(lambda w: (
+                      # the views that do not use the cache never list a directory: they stat its entries
+                      st.builds(lambda j, k: {"at": "scan", "j": j, "k": k}, st.sampled_from([0] * 7 + [1]),
+                                st.integers(0, 9)) if (w < 7 and v in ("in", "lb", "all")) else
+                      st.builds(lambda j, side: {"at": "stat", "j": j, "side": side}, st.integers(0, 6),
+                                st.sampled_from(["before", "after"])) if w < 11 - 4 * (v in ("le", "spec")) else
+                      st.builds(lambda j, side: {"at": "child", "j": j, "side": side},
+                                st.integers(0, 5 - 3 * (v == "le")), st.sampled_from(["before", "after"])) if w < 13 else
+                      st.builds(lambda side: {"at": "list", "j": 0, "side": side},
+                                st.sampled_from(["before", "after"])))))),
+              ask=names, probe=probe)
+        def concurrent(self, dsel, pre, cop, n, pick, kind, mode, vp, ask, probe):
+            # another process changes a $PATH directory while xonsh is reading it; see World._conc
+            view, point = vp
+            op = {"op": "conc", "dsel": dsel, "cop": cop, "n": n, "pick": pick, "kind": kind, "mode": mode,
+                  "point": point, "view": view, "ask": ask}
+            if pre or point["at"] == "scan":
+                op["pre"] = True        # a listing happens only if the directory changed since it was cached
+            self._go(op, probe)
+
+        @rule(ns=st.permutations(NAMES), form=st.sampled_from(RUN_FORMS),
               prefer_found=st.sampled_from([True, True, True, False]), probe=probe)
         def run(self, ns, form, prefer_found, probe):
             op = {"op": "run", "name": [form, ns[0]]}
@@ -1077,6 +1466,29 @@ def make_machine(stats, base, tolerate, ignore, seen=None):
             self._go({"op": "restart" if restart else "lookup"}, p)
 
     return PathLookupMachine
+
+
+def _drop_steps(f, base, tolerate, ignore, seconds=5.0):
+    """Hypothesis' shrinker has a short budget here; afterwards drop single operations (never init, never the last
+    one) as long as the same disagreement - same bucket - is still reported.  Bounded by wall time."""
+    import time
+
+    t_end = time.time() + seconds
+    best = f
+    ops = list(f.case["ops"])
+    i = len(ops) - 2
+    while i >= 1 and time.time() < t_end:
+        cand = ops[:i] + ops[i + 1:]
+        try:
+            g = check_case({"ops": cand}, base, tolerate, ignore)
+        except HarnessError:
+            g = None
+        if g is not None and g.bucket == best.bucket and g.kind == best.kind:
+            best = g
+            ops = list(g.case["ops"])
+            i = min(i, len(ops) - 1)
+        i -= 1
+    return best
 
 
 def worker_machine(arg):
@@ -1115,6 +1527,8 @@ def worker_machine(arg):
                     st.notes.append("a disagreement was observed once but did not recur in 3 replays (timing "
                                     "dependent): %s %s" % (seen[0].kind, common._oneline(seen[0].detail, 200)))
                     continue
+            if len(f.case.get("ops", ())) > 4:
+                f = _drop_steps(f, base, tolerate, ignore)
             st.fail(f)
             ignore.add(f.bucket)
     finally:
@@ -1143,9 +1557,10 @@ def main(run):
     nw = 10 if run.tier == "quick" else 16
     nex = run.n(66, 1500)
     steps = run.n(40, 60)
+    procs = min(nw, int(os.environ.get("VERIF_PROCS") or nw))
     common.pool_map(run, __name__, "worker_machine",
                     [(common.worker_seed(run.seed, w), nex, steps, os.path.join(run.scratch, "w%d" % w, "m"), tolerate)
-                     for w in range(nw)], procs=nw)
+                     for w in range(nw)], procs=procs)
     os.chdir(home)
     h = run.stats.hist
     tot = max(1, run.stats.evaluations)
@@ -1160,6 +1575,14 @@ def main(run):
         "entry_change_without_mtime_advance(kernel tick)": h.get("fs:entry-change-without-mtime-advance", 0),
         "total_name_lookups": tot,
     }
+    run.extra["concurrent_modification"] = {
+        "steps": sum(v for k, v in h.items() if k.startswith("conc:at:")),
+        "performed_inside_the_xonsh_call": sum(v for k, v in h.items() if k.startswith("conc:at:") and k != "conc:at:late"),
+        "after_the_listing_was_read_and_before_the_call_returned": sum(
+            h.get(k, 0) for k in ("conc:at:scan:before-first", "conc:at:scan:after-entry", "conc:at:scan:after-last",
+                                  "conc:at:scan:close")),
+        "call_relisted_the_directory": h.get("conc:directory-was-relisted-by-this-call", 0),
+    }
     run.extra["tolerated_open_findings"] = tolerate
     if not run.stats.failures:
         floors = ["after:chmod+x", "after:chmod-x", "after:delete", "after:create", "after:symlink", "after:rmdir",
@@ -1167,7 +1590,18 @@ def main(run):
                   "shadow-skipped:nonexec", "shadow-skipped:dir", "shadow-skipped:dangling-or-loop", "hit:via-symlink",
                   "cwd-has-exec-not-on-path", "path:empty-entry", "path:relative-entry", "path:symlinked-dir",
                   "path:duplicate-dir", "path:missing-or-nondir-entry", "run:found", "run:notfound",
-                  "step-with-cache-disabled", "step-with-cache-file"]
+                  "step-with-cache-disabled", "step-with-cache-file",
+                  # concurrent modification: every class of interleaving point really occurred
+                  "conc:at:scan:before-open", "conc:at:scan:before-first", "conc:at:scan:after-entry",
+                  "conc:at:scan:after-last", "conc:at:scan:close", "conc:at:stat:before", "conc:at:stat:after",
+                  "conc:at:child:before", "conc:at:child:after", "conc:at:late",
+                  "conc:op:create", "conc:op:install", "conc:op:delete", "conc:op:chmod", "conc:op:rename",
+                  "conc:op:moveout", "conc:op:dirgone", "conc:answer-of-that-call:from-the-old-state",
+                  "conc:answer-of-that-call:from-the-new-state",
+                  # `..` after a symlinked directory in explicit paths, looked up and really run
+                  "explicit-dotdot-after-symlink:command,other-file-at-textual-path",
+                  "explicit-dotdot-after-symlink:command,nothing-at-textual-path",
+                  "run:explicit-dotdot-after-symlink:found", "after:chdir-logical-pwd"]
         low = [k for k in floors if h.get(k, 0) < 20]
         if low:
             raise HarnessError("generator incomplete: classes below the floor of 20 cases: %r" % low)
@@ -1181,6 +1615,17 @@ def main(run):
         "file system: %s; on this kernel a directory's mtime advances on every entry change once it has been "
         "stat()ed (multigrain timestamps), so same-tick staleness is produced only through explicit mtime "
         "restoration (mt=keep), which is what tar/rsync -t/cp -p do" % _fstype(run.scratch),
+        "concurrent modification is simulated, not raced: the 'other process' acts inside wrappers of os.scandir / "
+        "os.listdir / os.stat / os.lstat / os.access at a generated point of xonsh's own reads of the directory; a "
+        "scanned directory is read in one go when it is opened (one getdents buffer), later changes are not in that "
+        "listing; only one change per lookup, in one directory",
+        "a concurrent change that does not move the directory's mtime (chmod; entry change in the kernel tick of the "
+        "previous one) is followed by a touch of the directory: staleness behind an unchanged mtime is C08-F1 and is "
+        "measured by the sequential steps, so persistent staleness after a concurrent step means a timestamp read too late",
+        "the answer given by the very lookup that overlapped the change may describe the state before or after it; "
+        "all following lookups are held to the file system",
+        "explicit paths: the reference is the kernel's resolution (os.stat, execve via /bin/sh for runs): `..` after a "
+        "symlinked directory is the parent of the link's target, a trailing separator after a regular file is ENOTDIR",
     ]
 
 
